@@ -61,5 +61,5 @@ class CallWriteHandler(AbstractWriteHandler):
             label_id = called_op.id
         elif isinstance(called_op, SsbForeignLabel):
             label_id = called_op.label.id
-        self.decompiler.write_stmnt(f"call @label_{label_id};")
+        self.decompiler.write_call(label_id)
         return next_edge.target_vertex
